@@ -16,7 +16,7 @@ LEVEL = "model_checking"
 ASSUMPTIONS = [
     "part A (engine H): on every state of a BFS over page/webentity/rule writes, every webentity, up to 6 orders of its prefix list, page sizes 1..4 (thorough 1..6) and None, crawled-only on/off: the token chain is followed to the end; oracle = get_webentity_pages / get_webentity_crawled_pages of the same state",
     "part B (engine P): on base states R1/R4/R5, every chain with at most 2 (thorough 3) page insertions interleaved at token boundaries, each branch replayed from scratch; membership 'throughout' is evaluated before the first call and after every insertion",
-    "part C: token text round trip for every prefix index 0..5 and every path in {1,2,3}^<=8",
+    "part C: token text round trip for every prefix index 0..5 and every path in {1,2,3}^<=8, and for every prefix index 0..130 with every path of <=3 steps",
     "a chain resumes every token it is issued by a fresh call carrying only the token text",
 ]
 Sk = S + b"p:k|"
@@ -68,6 +68,7 @@ class Check(HCheck):
         dops = [al.page(A + b"p:s020x|", True), al.create(A + b"p:s010|"), al.page(A + b"p:s039|p:k|")]
         return [
             Space(Cfg("domain"), dops, 1, roots=[deep_root], name="pages/deep-right-spine"),
+            Space(Cfg("never"), [al.page(Bb + b"p:w11|p:c|", True), al.page(Bb + b"p:w10|p:a|p:k|")], 1, roots=[al.many_prefix_root(12)], name="pages/12-prefixes"),
             Space(Cfg("domain"), lops, 5 if thorough else 4, roots=[(al.page(A),)], name="pages/long-siblings"),
             Space(Cfg("domain"), ops, d, roots=[al.R0, al.R1, al.R4], name="pages/domain"),
             Space(Cfg("subdomain", {Ab: "path2"}), ops, d - 1, roots=[R5], name="pages/subdomain+path2"),
@@ -197,7 +198,7 @@ def token_roundtrip(ctx_counts):
     for depth in range(0, 9):
         for digits in itertools.product("123", repeat=depth):
             path = int("".join(digits), 4) if digits else 0
-            for i in range(6):
+            for i in (range(131) if depth <= 3 else range(6)):
                 n += 1
                 tok = th.build_pagination_token(i, path)
                 back = th.parse_pagination_token(tok)
